@@ -324,15 +324,21 @@ func shrinkTape(tape []rt.Choice, test func([]rt.Choice) bool, budget *int) []rt
 			}
 		}
 	}
-	// C: zero single values
+	// C: zero single values, else halve / decrement them
 	for i := 0; i < len(tape); i++ {
 		if tape[i].V == 0 {
 			continue
 		}
-		c := append([]rt.Choice(nil), tape...)
-		c[i].V = 0
-		if try(trim(c)) {
-			tape = trim(c)
+		for _, v := range []int{0, tape[i].V / 2, tape[i].V - 1} {
+			if i >= len(tape) || v >= tape[i].V {
+				continue
+			}
+			c := append([]rt.Choice(nil), tape...)
+			c[i].V = v
+			if try(trim(c)) {
+				tape = trim(c)
+				break
+			}
 		}
 	}
 	return tape
